@@ -4,10 +4,15 @@ META = {
  "level_text": "Bounded symbolic model checking (CBMC). Currently: the C verdict plumbing of the minimal validator (start_cert/append/end_cert/end_chain/get_pkey from any context state) and, by cross-reference, the DER unit decoders used by signature verification (PKCS#1 v1.5 unpadding in C10, ECDSA ASN.1 conversion in C11). Partial: the certificate rules themselves are T0 bytecode (x509_minimal.t0); their natives are being added through the T0 native extractor (encoders/t0tool.py).",
  "level_note": "Trusted: CBMC. The T0 decoder invoked by append with err == 0 is not part of these queries.",
  "technique": "bounded symbolic model checking (CBMC/SAT) of real C units from an arbitrary symbolic context",
- "assumptions": ["xm_append with err == 0 runs the T0 interpreter: excluded here"],
+ "assumptions": ["xm_append with err == 0 runs the T0 interpreter: excluded here", "DN hash = stub hash class with 8-byte output (only desc is read); RSA/ECDSA verifiers behind ctx->irsa / ctx->iecdsa are contract stubs", "keys of toy size (RSA n <= 3 bytes, EC q <= 5 bytes)"],
  "outside_claim": ["full-chain equivalence with an independent validator", "real signature algebra", "T0-level rule sequencing (names chaining, BasicConstraints, KeyUsage, pathLen, validity dates) except the natives listed in the evidence"],
 }
 
 def queries():
-    return [Q("xm-plumbing", "C04_plumb.c", unwind=65, timeout=300,
+    qs = [Q("eqnocase-L3", "C04_trust.c", defs=["-DPART=1", "-DNL=3"], unwind=70, timeout=300, desc="eqnocase: every pair of 3-byte strings (all byte values)"),
+          Q("eqnocase-L1", "C04_trust.c", defs=["-DPART=1", "-DNL=1"], unwind=70, timeout=300, desc="eqnocase: every pair of bytes"),
+          Q("eqbigint", "C04_trust.c", defs=["-DPART=2"], unwind=70, timeout=300, desc="eqbigint: all operands up to 4 bytes with any leading zeros"),
+          Q("direct-trust", "C04_trust.c", defs=["-DPART=3"], unwind=70, timeout=300, desc="check_single_direct_trust vs reference rule, symbolic anchor flags / key types / keys (RSA n<=3 bytes, EC q<=5 bytes) / hashed names"),
+          Q("ca-anchor", "C04_trust.c", defs=["-DPART=4"], unwind=70, timeout=300, desc="check_single_trust_anchor_CA + verify_signature vs reference rule, verifier seams stubbed")]
+    return qs + [Q("xm-plumbing", "C04_plumb.c", unwind=65, timeout=300,
               desc="xm_start_cert/append/end_cert/end_chain/get_pkey from any (err, num_certs, cert_length) state")]
